@@ -5,6 +5,7 @@ EXTENDS FilterC06
 C06Quick    == Keep(GridA(Shapes, VarQuick)
                     \cup PairsSS({1, 2, 4, 5, 6}, {Per(<<2, -1, 1>>), Fin(<<-1, 2>>)})
                     \cup PairsSL({2, 5, 6}, {1, 2, 4}, BSrcQ)
+                    \cup Powers({1, 2, 5}, {Per(<<2, -1, 1>>), Fin(<<-1, 2, 1>>)})
                     \cup Scalings({1, 2, 5, 6}, BSrcQ)
                     \cup Triples({6}, {Per(<<2, -1, 1>>), Fin(<<-1, 2>>)})
                     \cup Triples({2}, {Fin(<<-1, 2, 1>>)}))
